@@ -101,6 +101,12 @@ def opus_trailing_data(ctx):
 def run(ctx):
     containers.run_histories(ctx, {"delete", "foreign", "info"}, RULE)
     opus_trailing_data(ctx)
+    # MP4: every layout of the C10 family under delete histories (structure, offset tables, media bytes, reload)
+    from props import c10
+    H = [[("delete",)], [("delete",), ("delete",)],
+         [("save", "5k", "default", False), ("delete",), ("save", "small", "zero", False)],
+         [("save", "small", "large", False), ("delete",), ("delete",), ("save", "cover", "default", False)]]
+    c10.run_shared(ctx, lambda i: [H[0], H[1 + i % 3]] if ctx.quick else H, "c08")
     id3file_tie.run(ctx)
     dsf_tie.run(ctx)
     asf_tie.run(ctx)
